@@ -33,6 +33,10 @@ type TransSpec struct {
 	Globals    []string // package-level variables treated as explicit state: read -> extra parameter, written -> extra result
 	WrapSigned bool     // int8/16/32/64 wrap around (swrap N) instead of being unbounded; `int` stays unbounded
 	Frags      []FragSpec
+	// [func] (gen/trans_func.go) InOut (opt-in, see "In-out slice parameters" in TRANSLATOR.md): a slice parameter that a
+	// function only indexes, measures, ranges over or passes on in the same way, and whose elements it writes, is returned
+	// to the caller (after the receiver, before the results) and the caller rebinds the variable / field it passed.
+	InOut bool
 }
 
 type unsupported struct{ msg string }
@@ -48,6 +52,7 @@ const (
 	kStruct             // a translated struct (or a pointer to it) -> its Record
 	kPlace              // [seq] h := &s[i], s a slice of translated structs -> the index (trans_seq.go)
 	kErr                // [ext:T20] error -> Z: nil = 0, a sentinel `var ErrX = errors.New(..)` = a positive code
+	kFunc               // [func] a function-typed parameter / field (trans_func.go) -> a Gallina function
 )
 
 type gtype struct {
@@ -59,6 +64,7 @@ type gtype struct {
 	str   bool        // [ext:T20] kSlice that is a Go string (immutable bytes)
 	arr   int64       // [ext:T20] kSlice that is a Go array [arr]T (isArr)
 	isArr bool
+	fn    *funcSig // [func] kFunc
 }
 
 func (g gtype) coq() string {
@@ -72,6 +78,8 @@ func (g gtype) coq() string {
 		return "list Z"
 	case kStruct:
 		return g.st.name
+	case kFunc:
+		return g.fn.coq()
 	}
 	return "Z"
 }
@@ -86,6 +94,8 @@ func (g gtype) zero() string {
 		return "[]"
 	case kStruct:
 		return "zero_" + g.st.name
+	case kFunc:
+		return "nil_func_is_not_modelled" // never emitted: declarations needing it are refused (trans_func.go)
 	}
 	return "0"
 }
@@ -114,6 +124,9 @@ type funcInfo struct {
 	greads, gwrites map[*globalInfo]bool // package-level state read / written (directly or through calls)
 	ignoredRecv     bool                 // a receiver of an untranslatable type that the body never mentions
 	frag            *fragInfo            // a loop fragment of a function instead of a whole function
+	// [func] (trans_func.go)
+	noesc []bool // per parameter: a slice the function neither keeps, reslices, returns nor reassigns
+	inout []bool // per parameter: noesc and written in place (directly or through calls): returned to the caller
 }
 
 type Translator struct {
@@ -127,6 +140,7 @@ type Translator struct {
 	global  map[string]bool // Coq names that locals must not shadow
 	seq     *seqState       // [seq] sequential reading of atomics, places, timed tails (trans_seq.go)
 	ext20                   // [ext:T20] state of gen/trans_ext20.go
+	inOut   bool            // [func] TransSpec.InOut
 }
 
 type stubImporter struct{}
@@ -211,6 +225,10 @@ func (t *Translator) typeOf(ty types.Type, n ast.Node) gtype {
 				return gtype{k: kStruct, st: si, ptr: true}
 			}
 		}
+	case *types.Signature:
+		if fs := t.funcSigOf(x, n); fs != nil {
+			return gtype{k: kFunc, fn: fs}
+		}
 	case *types.Named:
 		if si := t.structs[x.Origin().Obj()]; si != nil {
 			return gtype{k: kStruct, st: si}
@@ -269,7 +287,7 @@ func Translate(repo string, spec TransSpec) (out string, err error) {
 		return "", e
 	}
 	t := &Translator{fset: p.Fset, repo: repo, structs: map[*types.TypeName]*structInfo{}, funcs: map[*types.Func]*funcInfo{},
-		byName: map[string]*ast.FuncDecl{}, global: map[string]bool{}}
+		byName: map[string]*ast.FuncDecl{}, global: map[string]bool{}, inOut: spec.InOut}
 	defer func() {
 		if r := recover(); r != nil {
 			if u, ok := r.(unsupported); ok {
@@ -399,12 +417,16 @@ func (si *structInfo) emit() string {
 		}
 		b.WriteString(".\n")
 	}
-	fmt.Fprintf(&b, "Definition zero_%s : %s := mk%s", si.name, si.name, si.name)
-	for _, ft := range si.ftypes {
-		b.WriteString(" " + ft.zero())
+	if si.hasFunc() { // a nil function value is not modelled: no zero value (declarations needing one are refused)
+		fmt.Fprintf(&b, "#[export] Hint Unfold")
+	} else {
+		fmt.Fprintf(&b, "Definition zero_%s : %s := mk%s", si.name, si.name, si.name)
+		for _, ft := range si.ftypes {
+			b.WriteString(" " + ft.zero())
+		}
+		b.WriteString(".\n")
+		fmt.Fprintf(&b, "#[export] Hint Unfold zero_%s", si.name)
 	}
-	b.WriteString(".\n")
-	fmt.Fprintf(&b, "#[export] Hint Unfold zero_%s", si.name)
 	for _, f := range si.fields {
 		fmt.Fprintf(&b, " set_%s_%s %s_%s", si.name, f, si.name, f)
 	}
@@ -453,6 +475,9 @@ func (t *Translator) addFunc(key string) *funcInfo {
 		g := t.typeOf(rv.Type(), fd)
 		if g.k == kStruct && g.ptr {
 			t.fail(fd, "pointer result of %s", key)
+		}
+		if g.k == kFunc {
+			t.fail(fd, "function-typed result of %s", key)
 		}
 		fi.results = append(fi.results, g)
 	}
@@ -564,6 +589,11 @@ func (t *Translator) assigned(n ast.Node, set map[types.Object]bool) {
 					}
 				}
 			}
+			for _, a := range t.writtenArgs(x) { // [func] in-out slice arguments (trans_func.go)
+				if o, _ := t.rootObj(a); o != nil {
+					set[o] = true
+				}
+			}
 			if fn, _ := t.calleeOf(x); fn != nil { // [ext:T20] package-level state written by the callee
 				if fi := t.funcs[fn]; fi != nil {
 					for g := range fi.gwrites {
@@ -609,11 +639,17 @@ func (t *Translator) analyse() {
 						fi.callees[t.funcFor(fn, c)] = true
 					}
 				}
+				if id, ok := m.(*ast.Ident); ok { // a package function used as a value (trans_func.go)
+					if fn := t.funcValueRef(id); fn != nil {
+						fi.callees[t.funcFor(fn, id)] = true
+					}
+				}
 				return true
 			})
 			fi.loops = hasLoop(t.body(fi))
 		}
 	}
+	t.analyseInOut()
 	for changed := true; changed; {
 		changed = false
 		for _, fi := range t.funcs {
